@@ -193,6 +193,11 @@ def tables_by_use(prog, f):
             v = prog.const(n.value, f.module, env, f.cls)
             if isinstance(v, dict) and v:
                 out.append((v, n))
+        # T.get(key[, default]) is a lookup as well (reported as the equivalent subscript)
+        if isinstance(n, ast.Call) and isinstance(n.func, ast.Attribute) and n.func.attr == "get" and 1 <= len(n.args) <= 2 and not n.keywords:
+            v = prog.const(n.func.value, f.module, env, f.cls)
+            if isinstance(v, dict) and v:
+                out.append((v, ast.copy_location(ast.Subscript(value=n.func.value, slice=n.args[0], ctx=ast.Load()), n)))
     return out
 
 
